@@ -3,8 +3,10 @@
 // Explicit-state search over Interest/Data/clock histories on ONE real fw.Thread
 // (verif/harness/fwsim) with FIBs that invite leakage: a default route towards a non-local face,
 // a /localhost route towards a non-local face, a /localhost/nfd entry with a local and a
-// non-local next hop, best-route or multicast on "/", consumer-chosen next hops (NextHopFaceId),
-// token-addressed Data and cache hits.
+// non-local next hop, best-route or multicast on "/", consumer-chosen next hops (NextHopFaceId,
+// from a local application, from a non-local face that ignores the header and from a NON-LOCAL
+// face on which local fields are enabled, naming local and non-local faces), token-addressed Data
+// and cache hits.
 //
 //	C09.out   invariant on EVERY SendPacket observed on a face with Scope()==NonLocal, whatever
 //	          the step was: the packet's name does not start with "localhost".
@@ -137,6 +139,9 @@ func build(cfgName string) explore.System {
 			{ID: fwsim.N2, Label: "N2", Scope: defn.NonLocal, Link: defn.PointToPoint},
 			{ID: fwsim.N3, Label: "N3", Scope: defn.NonLocal, Link: defn.PointToPoint},
 			{ID: fwsim.L5, Label: "L5", Scope: defn.Local, Link: defn.PointToPoint, CCF: true},
+			// a NON-LOCAL face on which local fields (consumer-controlled forwarding) were enabled:
+			// faces/create and faces/update accept LocalFieldsEnabled for any face
+			{ID: fwsim.N4, Label: "N4", Scope: defn.NonLocal, Link: defn.PointToPoint, CCF: true},
 		},
 		Routes: []fwsim.Route{
 			{Prefix: "/", Face: fwsim.N2, Cost: 1},          // default route towards the network
@@ -191,6 +196,18 @@ func build(cfgName string) explore.System {
 	s.addI(iOp{face: fwsim.L1, name: "/localhost/x", nh: fwsim.L5})
 	s.addI(iOp{face: fwsim.L1, name: A, nh: fwsim.N2})
 	s.addI(iOp{face: fwsim.N2, name: "/localhost/x", nh: fwsim.L5}) // NextHopFaceId on a face without local fields
+	// ... and on a non-local face WITH local fields (N4): the chosen next hop is a local face (the
+	// producer / management face L5, the application L1) or a non-local one; the Interest is under
+	// /localhost, so it must be rejected on arrival whatever its LP header says
+	s.addI(iOp{face: fwsim.N4, name: "/localhost/x"})
+	for _, nh := range []uint64{fwsim.L5, fwsim.L1, fwsim.N2} {
+		s.addI(iOp{face: fwsim.N4, name: "/localhost/x", nh: nh})
+	}
+	s.addI(iOp{face: fwsim.N4, name: probeName, nh: fwsim.L5})
+	s.addI(iOp{face: fwsim.N4, name: probeName, cbp: true, nh: fwsim.L5})
+	// the legal use of that face: an ordinary name sent to a chosen local face (creates PIT state
+	// with a downstream on N4), and the Data that comes back
+	s.addI(iOp{face: fwsim.N4, name: A, nh: fwsim.L5})
 	s.addD(dOp{face: fwsim.N2, name: "/localhost/x", tok: "echo1"})
 	s.addD(dOp{face: fwsim.L5, name: "/localhost/x", tok: "echo1"})
 	// forwarding hints: the FIB lookup (and anything else keyed on "the lookup name") uses the
@@ -546,7 +563,7 @@ func main() {
 			}
 			return 90 * time.Second
 		},
-		Rule: "BFS over histories of Interest arrivals (names /localhost/x, /localhost/nfd/y, /localhop/z, /a, / and /localhost with CanBePrefix; with and without a HopLimit element (1, 2, 255); from local L1 and non-local N2/N3; NextHopFaceId -> N2 / L5), Data arrivals (same names, from L5/N2/L1, no token or echo of a live upstream token) clock steps and the destruction of the non-local face N2 (after which packets it delivered earlier still arrive), on one real fw.Thread with leaky FIBs (default route and /localhost route to non-local N2, /localhost/nfd -> {L5,N2}), best-route or multicast on /, cache on/off, FIB tree/hash table; C09.out checked on every SendPacket of every step and of the probes, C09.in by comparing the complete white-box dump before/after each rejected packet, C09.local by a fetch-twice probe in every explored state",
+		Rule: "BFS over histories of Interest arrivals (names /localhost/x, /localhost/nfd/y, /localhop/z, /a, / and /localhost with CanBePrefix; with and without a HopLimit element (1, 2, 255); from local L1 and non-local N2/N3/N4; NextHopFaceId -> N2 / L5 / L1 on the local-fields face L1, on N2 (local fields disabled) and on the NON-LOCAL face N4 with local fields enabled), Data arrivals (same names, from L5/N2/L1, no token or echo of a live upstream token) clock steps and the destruction of the non-local face N2 (after which packets it delivered earlier still arrive), on one real fw.Thread with leaky FIBs (default route and /localhost route to non-local N2, /localhost/nfd -> {L5,N2}), best-route or multicast on /, cache on/off, FIB tree/hash table; C09.out checked on every SendPacket of every step and of the probes, C09.in by comparing the complete white-box dump before/after each rejected packet, C09.local by a fetch-twice probe in every explored state",
 		Assumptions: []string{
 			"faces are simulated at the dispatch.Face seam (verif/harness/fwsim): Scope() of the fake face is what the thread consults; NextHopFaceId is copied into the packet only on faces with local fields enabled, as NDNLPLinkService.handleIncomingFrame does",
 			"L5 is a pure producer (never sends Interests), so it is never excluded as a next hop for holding an in-record",
